@@ -29,13 +29,13 @@ BATTERY = {
     "C01": [("rand", 500, 30000), ("stop", 300, 10000), ("dead", 150, 6000), ("ties", 80, 768),
             ("tiny", 60, 324), ("edit", 100, 5000), ("slow", 40, 108), ("zerow", 36, 36)],
     "C04": [("rand", 500, 30000), ("stop", 300, 10000), ("ties", 140, 768), ("dead", 100, 4000),
-            ("tiny", 60, 324), ("samerow", 144, 144)],
+            ("tiny", 60, 324), ("samerow", 144, 144), ("gap5", 16, 16)],
     "C02": [("stop", 700, 40000), ("dead", 250, 12000), ("ties", 80, 768), ("tiny", 60, 324),
             ("bigrew", 36, 36), ("slow", 40, 108), ("slowrew", 48, 72)],
     "C03": [("dead", 400, 20000), ("rand", 400, 20000), ("stop", 200, 8000), ("tiny", 80, 324),
             ("nonabs", 100, 504), ("zerow", 36, 36)],
     "C05": [("stop", 700, 40000), ("dead", 200, 8000), ("ties", 140, 768), ("nonabs", 120, 504),
-            ("bigrew", 36, 36), ("diag", 80, 160), ("samerow", 144, 144), ("slowrew", 36, 72)],
+            ("bigrew", 36, 36), ("diag", 80, 160), ("samerow", 144, 144), ("slowrew", 36, 72), ("gap5", 16, 16)],
     "C06": [("stop", 600, 30000), ("dead", 300, 20000), ("rand", 200, 8000), ("tiny", 60, 324),
             ("edit", 120, 6000), ("nonabs", 100, 504), ("slow", 40, 108),
             ("zerow", 36, 36)],
@@ -132,12 +132,12 @@ def build_sessions(gens, exact=True):
     return sessions
 
 
-ODD_NAMES = ["go", "go left", "g", " ", "Go", "go  left", "left.go", "go_", "-", "0"]
+ODD_NAMES = ["", "go", "go left", "g", " ", "Go", "go  left", "left.go", "go_", "-", "0"]
 
 
 def odd_names(g):
     """The same game with action names that are legal but unusual: spaces, a single blank, names that
-    are prefixes of each other, a digit (an injective renaming; state by state the order of first
+    are prefixes of each other, the empty string, a digit (an injective renaming; state by state the order of first
     appearance decides, so one name means different things in different states, as in the originals)."""
     names = []
     for row, o in zip(g["tr"], g["owner"]):
